@@ -15,17 +15,26 @@ HARNESSES = {
 }
 
 def _poly(mode):
+    # run 1: dimensions 0..2 (menus of dimension-2 data); run 2: dimension 3 with its own extra menu entries
+    # (the first dimension in which non-adjacent generator pairs and combinatorial adjacency tests occur)
     def runs(tier):
+        d3 = ["--mode", mode, "--mindim", "3", "--maxdim", "3"]
         if tier == "quick":
-            return [{"harness": "poly", "args": ["--mode", mode, "--depth", "3" if mode == "C01" else "2", "--pool", "24" if mode == "C01" else "36"], "budget": 270}]
+            if mode == "C01":
+                return [{"harness": "poly", "args": ["--mode", mode, "--depth", "3", "--pool", "24"], "budget": 270},
+                        {"harness": "poly", "args": d3 + ["--depth", "2", "--pool", "24"], "budget": 200}]
+            return [{"harness": "poly", "args": ["--mode", mode, "--depth", "2", "--pool", "36"], "budget": 270},
+                    {"harness": "poly", "args": d3 + ["--depth", "1", "--pool", "16"], "budget": 200}]
         if mode == "C01":
-            return [{"harness": "poly", "args": ["--mode", mode, "--depth", "3", "--all-states"], "budget": 3000}]
-        return [{"harness": "poly", "args": ["--mode", mode, "--depth", "3"], "budget": 3000}]
+            return [{"harness": "poly", "args": ["--mode", mode, "--depth", "3", "--all-states"], "budget": 3000},
+                    {"harness": "poly", "args": d3 + ["--depth", "3"], "budget": 2400}]
+        return [{"harness": "poly", "args": ["--mode", mode, "--depth", "3"], "budget": 3000},
+                {"harness": "poly", "args": d3 + ["--depth", "2", "--pool", "24"], "budget": 2400}]
     return runs
 
 CHECKS = {
-    "C01": {"runs": _poly("C01"), "level": "model_checking", "deadline": {"quick": 270, "thorough": 3000}},
-    "C02": {"runs": _poly("C02"), "level": "model_checking", "deadline": {"quick": 270, "thorough": 3000}},
+    "C01": {"runs": _poly("C01"), "level": "model_checking", "deadline": {"quick": 470, "thorough": 5400}},
+    "C02": {"runs": _poly("C02"), "level": "model_checking", "deadline": {"quick": 470, "thorough": 5400}},
 }
 
 
